@@ -115,3 +115,11 @@ package types
 // anything longer would pass its checks and then break aggregation)
 //@ func (m MsgSubmitSignature) ValidateBasic
 //@ ensures err == nil ==> m.SigningID != 0 && m.MemberID != 0 && bech32ok(m.Signer) && tss.sigWellFormed(m.Signature)
+
+// ---- C11: the bytes a group signs for a content = 4-byte route selector || the handler's message --------------------------
+// (the closure returned by wrapHandler; it must build a FRESH byte string per call: appending to a slice shared between
+// calls with spare capacity would let a later request overwrite the bytes an earlier one is still about to sign - the
+// engine's `append-shared-capacity` obligation)
+//@ func wrapHandler$lit0
+//@ modifies *
+//@ ensures err != nil ==> result == nil
